@@ -68,6 +68,18 @@ func WorkerMain(exportList string) {
 			os.Exit(3)
 		}
 	}
+	// memory watchdog: a runaway generation (unbounded recursion that keeps allocating) must not exhaust the sandbox
+	go func() {
+		var ms runtime.MemStats
+		for {
+			time.Sleep(50 * time.Millisecond)
+			runtime.ReadMemStats(&ms)
+			if ms.HeapAlloc > 2<<30 || ms.StackInuse > 900<<20 {
+				fmt.Fprintf(os.Stderr, "\nfatal: RUNAWAY generation: heap %d MiB, stack %d MiB - worker gives up (non-termination)\n", ms.HeapAlloc>>20, ms.StackInuse>>20)
+				os.Exit(3)
+			}
+		}
+	}()
 	dir, err := os.MkdirTemp(os.Getenv("VERIF_SCRATCH"), "w-")
 	if err != nil {
 		fmt.Fprintln(os.Stderr, "worker:", err)
